@@ -514,7 +514,7 @@ fn text() -> impl Strategy<Value = String> {
 pub fn main(args: &Args) -> i32 {
     let cases = match args.tier {
         Tier::Quick => 2400,
-        Tier::Thorough => 16 * 4000,
+        Tier::Thorough => 16 * 150000,
     };
     let spec = Spec {
         id: "C15",
